@@ -170,9 +170,13 @@ def _hist_subsearches():
                                (['CA', 'CB'], 'bindings/client/types.ts', ['import type { P1 } from "../deps";', 'import type { RF } from "../replies from server/reply";']),
                                (['CB', 'CA'], 'bindings/client/types.ts', ['import type { P1 } from "../deps";', 'import type { RF } from "../replies from server/reply";'])):
             roots = root if isinstance(root, list) else [root]
-            got = run_history([['export_all', r_] for r_ in roots])
-            txt = got.get('files', {}).get(f)
-            have = [l for l in (txt or '').split('\n') if l.startswith('import ')]
+            # each history runs in three fresh processes: an order that depends on a per-process hash seed shows up as a difference
+            for _rep in range(3):
+                got = run_history([['export_all', r_] for r_ in roots])
+                txt = got.get('files', {}).get(f)
+                have = [l for l in (txt or '').split('\n') if l.startswith('import ')]
+                if txt is None or have != lines:
+                    break
             if txt is None or have != lines:
                 return {'request': {'op': 'export_history', 'steps': [['export_all', r_] for r_ in roots]}, 'result': {'files': got.get('files'), 'results': got.get('results'),
                         'expected_import_lines': {f: lines}, 'agree': False}, 'kind': 'history-imports', 'file': f, 'lines': lines}
@@ -405,6 +409,19 @@ SPEAKS_FOR = {'search_templates': ('C04', 'C11', 'C15'), 'search_attrs': ('C09',
 def run_named(spec):
     """A registered bounded stand-in (units.json `bounded_standins`): `hist:<sub-search>` or `op:<replay op>`. Returns a witness or None."""
     kind, name = spec.split(':', 1)
+    if kind == 'fresh':
+        # the same request in several fresh processes (each with its own hash seed): the answers must be identical
+        exe = natives.build_replay()
+        outs = []
+        for _ in range(5):
+            p = subprocess.run([exe, json.dumps({'op': name})], capture_output=True, text=True, timeout=120)
+            outs.append(p.stdout.strip().splitlines()[-1] if p.stdout.strip() else p.stderr[-300:])
+        if len(set(outs)) > 1:
+            a, b = outs[0], next(o for o in outs if o != outs[0])
+            k = next((i for i in range(min(len(a), len(b))) if a[i] != b[i]), 0)
+            return {'request': {'op': name, 'processes': 5}, 'result': {'distinct_answers': len(set(outs)), 'first_difference_at_char': k,
+                    'one': a[max(0, k - 200):k + 300], 'another': b[max(0, k - 200):k + 300], 'agree': False}, 'kind': 'fresh'}
+        return None
     if kind == 'probe':
         ok, text, errs = natives.build_probe()
         if ok:
@@ -436,6 +453,10 @@ def search_standin(pid, unit):
 
 def rerun(rec):
     w = rec['witness']
+    if w.get('kind') == 'fresh':
+        r = run_named('fresh:' + w['request']['op'])
+        print('replayed in five fresh processes on the current tree:', 'answers differ' if r else 'identical answers')
+        return 1 if r else 0
     if w.get('kind') == 'probe':
         ok, text, errs = natives.build_probe()
         print('compile probe on the current tree:', 'builds' if ok else errs)
